@@ -102,7 +102,10 @@ def judge_slice(obj, key, got):
     results = []
 
     def fn(pol):
-        rows = canon_rows(obj.rows(key, pol))
+        try:
+            rows = canon_rows(obj.rows(key, pol))
+        except KeyError:                 # the engine returned a datapoint outside every slice of the operand
+            rows = []
         consulted.update(pol.asked)
         results.append(rows)
         return repr(sorted(repr(sorted(r.items())) for r in rows))
@@ -110,10 +113,31 @@ def judge_slice(obj, key, got):
     for rows in results:
         if same_rows(got, rows, obj.ids):
             return [], results[0], consulted
+    best = None
     for rows in results:
-        if not diff_rows(got, rows, obj.ids):
+        d = diff_rows(got, rows, obj.ids)
+        if not d:
             return [], results[0], consulted
-    return diff_rows(got, results[0], obj.ids), results[0], consulted
+        score = len(d) - 2 * len(ruleid_pairs(d, obj.ids))
+        if best is None or score < best[0]:
+            best = (score, d, rows)
+    return best[1], best[2], consulted          # reported against the closest accepted reading
+
+
+def ruleid_pairs(diffs, ids):
+    """(missing, extra) datapoints that are the same datapoint under another rule identifier"""
+    if "ruleid" not in ids:
+        return []
+    pos = ids.index("ruleid")
+    miss = [d for d in diffs if d[0] == "missing-datapoint"]
+    extra = [d for d in diffs if d[0] == "extra-datapoint"]
+    out = []
+    for m in miss:
+        for e in extra:
+            if m[1][:pos] == e[1][:pos] and m[1][pos] != e[1][pos] and all(refbase.val_eq(e[2].get(c), v) for c, v in m[2].items() if c != "ruleid"):
+                out.append((m, e))
+                break
+    return out
 
 
 # ---------------------------------------------------------------------------------------------------------
@@ -221,3 +245,590 @@ def calibrate(verbose=False):
         else:
             skipped.append((label, verdict, info))
     return ok, wrong, skipped
+
+
+# ---------------------------------------------------------------------------------------------------------
+# the space
+# ---------------------------------------------------------------------------------------------------------
+
+CMPS = ("=", "<>", "<", "<=", ">", ">=")
+VAL_INT = (None, -1, 0, 2)
+VAL_NUM = (None, -1.5, 0.0, 2.5)
+
+# (b) the datapoint-rule alphabet; signature: variable Id_2, Me_1 as X, Me_2 as Y
+DP_SIGNATURE = "variable Id_2, Me_1 as X, Me_2 as Y"
+DP_COMPONENTS = "Id_2, Me_1, Me_2"
+DP_RULES = (
+    'X > 0 errorcode "E1" errorlevel 1',
+    'when Id_2 = "a" then X >= Y errorcode "E2"',
+    'when Y < 2 then X <> 0 errorlevel 3',
+    'X + Y > 0 or Id_2 = "b"',
+    'when Id_2 = "b" and X > 0 then isnull(Y) errorcode "E5" errorlevel 5',
+    'not isnull(X) and nvl(Y, 0.0) >= 0 errorcode "E6" errorlevel 6',
+)
+DP_OUTPUTS = ("invalid", "all", "all_measures")
+
+# (c) the hierarchical-rule alphabet over the code items A B C D T
+HR_RULES = (
+    'T = A + B errorcode "E1" errorlevel 1',
+    'T = A - B errorcode "E2"',
+    'A = C + D',
+    'T >= A errorlevel 4',
+    'when Id_3 = 1 then B = C - D errorcode "E5" errorlevel 5',
+)
+HR_WHEN = 4
+ITEMS = "ABCDT"
+VALUATIONS = (
+    {"A": 1, "B": 2, "C": 4, "D": -3, "T": 3},        # no zero; T = A + B and A = C + D hold
+    {"A": 0, "B": 0, "C": 2, "D": -2, "T": 0},        # zeros; C + D cancels to zero
+    {"A": 5, "B": -2, "C": 0, "D": 5, "T": 3},        # T >= A fails
+)
+CHECK_OUTPUTS = ("invalid", "all", "all_measures")
+HIER_INPUTS = ("dataset", "rule", "rule_priority")
+HIER_OUTPUTS = ("computed", "all")
+
+
+def check_data():
+    """(a): operands of the same identifiers; every pair of values plus a datapoint only one operand has"""
+    out = {}
+    for tag, vals, typ in (("I", VAL_INT, "Integer"), ("N", VAL_NUM, "Number")):
+        comps = [("Id_1", "Integer", ID), ("Id_2", "String", ID), ("Me_1", typ, ME)]
+        left, right = [], []
+        for i, (x, y) in enumerate(itertools.product(vals, vals)):
+            left.append({"Id_1": i, "Id_2": "ab"[i % 2], "Me_1": x})
+            right.append({"Id_1": i, "Id_2": "ab"[i % 2], "Me_1": y})
+        left.append({"Id_1": 100, "Id_2": "a", "Me_1": vals[3]})
+        right.append({"Id_1": 101, "Id_2": "b", "Me_1": vals[1]})
+        out["D%s_1" % tag] = (comps, left)
+        out["D%s_2" % tag] = (comps, right)
+    return out
+
+
+def check_statements():
+    """(a): -> list of statement texts (without target)"""
+    out = []
+    for tag, scalar in (("I", "0"), ("N", "2.5")):
+        for op in CMPS:
+            for shape in ("ds-ds", "ds-scalar"):
+                a, b = "D%s_1" % tag, ("D%s_2" % tag if shape == "ds-ds" else scalar)
+                for code, level in itertools.product((False, True), repeat=2):
+                    for imb in (False, True):
+                        for output in ("invalid", "all", ""):
+                            text = "check(%s %s %s%s%s%s%s)" % (a, op, b, ' errorcode "EC"' if code else "", " errorlevel 3" if level else "",
+                                                                " imbalance %s - %s" % (a, b) if imb else "", " " + output if output else "")
+                            out.append(text)
+    return out
+
+
+def dp_data():
+    comps = [("Id_1", "Integer", ID), ("Id_2", "String", ID), ("Me_1", "Integer", ME), ("Me_2", "Number", ME)]
+    rows = [{"Id_1": i, "Id_2": k, "Me_1": x, "Me_2": y} for i, (k, x, y) in enumerate(itertools.product("ab", VAL_INT, VAL_NUM))]
+    return {"DS_1": (comps, rows)}
+
+
+def dp_rulesets(tier):
+    seqs = [(i,) for i in range(6)] + list(itertools.product(range(6), repeat=2))
+    if tier == "thorough":
+        for n in (3, 4, 5):
+            seqs += list(itertools.combinations(range(6), n))
+    return seqs
+
+
+def dp_script(seq):
+    """both namings of the ruleset, 3 outputs x components present / absent = 12 statements"""
+    parts = []
+    for named in (False, True):
+        rules = ["%s%s" % ("n%d_%d : " % (k, pos) if named else "", DP_RULES[k]) for pos, k in enumerate(seq)]
+        parts.append("define datapoint ruleset dpr_%s (%s) is\n  %s\nend datapoint ruleset;" % ("n" if named else "u", DP_SIGNATURE, ";\n  ".join(rules)))
+    n = 0
+    for named in (False, True):
+        for output in DP_OUTPUTS:
+            for comps in (False, True):
+                n += 1
+                parts.append("R_%d <- check_datapoint(DS_1, dpr_%s%s %s);" % (n, "n" if named else "u", " components " + DP_COMPONENTS if comps else "", output))
+    return "\n".join(parts)
+
+
+def hr_data(mtype):
+    """(c): Id_1 = C_id (one group per pattern x valuation x condition value), Id_3 = condition value, Id_2 = code item"""
+    comps = [("Id_1", "Integer", ID), ("Id_3", "Integer", ID), ("Id_2", "String", ID), ("Me_1", mtype, ME)]
+    rows, cid = [], 0
+    for pattern in itertools.product((0, 1, 2), repeat=5):          # 0 absent, 1 null, 2 value
+        for v in range(len(VALUATIONS)):
+            for flag in (0, 1):
+                for item, state in zip(ITEMS, pattern):
+                    if state:
+                        val = VALUATIONS[v][item] if state == 2 else None
+                        rows.append({"Id_1": cid, "Id_3": flag, "Id_2": item, "Me_1": (float(val) if mtype == "Number" and val is not None else val)})
+                cid += 1
+    return {"DS_1": (comps, rows)}
+
+
+def hr_rulesets(tier):
+    seqs = [(i,) for i in range(5)] + list(itertools.permutations(range(5), 2))
+    if tier == "thorough":
+        seqs += list(itertools.permutations(range(5), 3))
+    return seqs
+
+
+def hr_definition(seq, named):
+    cond = HR_WHEN in seq
+    rules = ["%s%s" % ("h%d : " % k if named else "", HR_RULES[k]) for k in seq]
+    head = "define hierarchical ruleset hr (variable %srule Id_2) is\n  %s\nend hierarchical ruleset;" % ("condition Id_3 " if cond else "", ";\n  ".join(rules))
+    return head, (" condition Id_3" if cond else "")
+
+
+def hr_script(seq, named, fn, modes):
+    head, cond = hr_definition(seq, named)
+    parts, n = [head], 0
+    for mode in modes:
+        if fn == "check_hierarchy":
+            for output in CHECK_OUTPUTS:
+                n += 1
+                # the defaults are exercised too: ``dataset`` and ``invalid`` / ``non_null`` are omitted in some statements
+                parts.append("R_%d <- check_hierarchy(DS_1, hr%s rule Id_2%s%s%s);" % (
+                    n, cond, "" if (mode == "non_null" and output == "all") else " " + mode,
+                    " dataset" if output != "all_measures" else "", "" if (output == "invalid" and mode == "always_zero") else " " + output))
+        else:
+            for inp in HIER_INPUTS:
+                for output in HIER_OUTPUTS:
+                    n += 1
+                    parts.append("R_%d <- hierarchy(DS_1, hr%s rule Id_2%s%s%s);" % (
+                        n, cond, "" if (mode == "non_null" and inp == "dataset") else " " + mode,
+                        "" if (inp == "rule" and output == "all") else " " + inp, "" if (output == "computed" and mode == "partial_zero") else " " + output))
+    return "\n".join(parts)
+
+
+def space(tier):
+    items = []
+    stmts = check_statements()
+    for i in range(0, len(stmts), 24):
+        items.append({"part": "a", "stmts": stmts[i:i + 24]})
+    for seq in dp_rulesets(tier):
+        items.append({"part": "b", "seq": list(seq)})
+    for seq in hr_rulesets(tier):
+        modes = list(R.MODES) if (len(seq) == 1 or tier == "thorough") else ["non_null", "always_null"]
+        for named in (False, True):
+            for fn in ("check_hierarchy", "hierarchy"):
+                items.append({"part": "c", "seq": list(seq), "named": named, "fn": fn, "modes": modes})
+    items.append({"part": "c-dataset-priority"})
+    return items
+
+
+# ---------------------------------------------------------------------------------------------------------
+# executing one script and judging every slice of every statement
+# ---------------------------------------------------------------------------------------------------------
+
+def to_ds(datasets, seed=0, only=None):
+    out = []
+    for name, (comps, rows) in datasets.items():
+        rows = [r for r in rows if only is None or only(name, r)]
+        out.append(DS(name, comps, harness.seeded_order(rows, seed)))
+    return out
+
+
+def engine_slices(dataset, slice_ids, rec=None):
+    rows = harness.dataset_rows(dataset) or []
+    out = {}
+    for r in rows:
+        # a numeric errorlevel comes back as text when another rule of the ruleset has none (the data type of the
+        # component is C10's business): compared by value
+        v = r.get("errorlevel")
+        if isinstance(v, str):
+            try:
+                r["errorlevel"] = harness.canon_value(float(v))
+                if rec is not None:
+                    rec.count("errorlevel_returned_as_text")
+            except ValueError:
+                pass
+        out.setdefault(tuple(r.get(i) for i in slice_ids), []).append(r)
+    return out
+
+
+def state_of(v):
+    if v is R.ABSENT:
+        return "absent"
+    if v is None:
+        return "null"
+    return "zero" if v == 0 else "value"
+
+
+def describe(obj, key, diffs):
+    """-> (rule shape, equivalence class of the failing input, kind of deviation) for the differences of a slice"""
+    kind, dkey, detail = diffs[0]
+    for k2, _, d2 in diffs:          # a wrong validation outcome is the more telling difference
+        if k2 == "wrong-value" and d2[0] in ("bool_var", "imbalance"):
+            kind, detail = k2, d2
+            break
+    if kind == "wrong-value" and detail[0] in ("errorcode", "errorlevel"):
+        kind = "wrong-errorcode"
+    if kind == "wrong-value":
+        kind = "wrong-value(%s)" % ("measure" if detail[0] not in VALIDATION_COLS else detail[0])
+    call = obj.call
+    pol = R.Policy()
+    if call["fn"] == "check":
+        b = obj.all_rows[key]["bool_var"]
+        return "any", "comparison-is-%s" % {True: "true", False: "false", None: "null"}[b], kind
+    if "ruleid" in obj.ids:
+        # the same datapoint reported under another rule identifier
+        if ruleid_pairs(diffs, obj.ids):
+            named = any(r["name"] is not None for r in obj.rs["rules"])
+            return ("named-rules" if named else "unnamed-rules"), "ruleset-" + rule_order_class(obj.rs), "wrong-value(ruleid)"
+    if call["fn"] == "check_datapoint":
+        rid = dict(zip(obj.ids, dkey)).get("ruleid")
+        k = obj.names.index(rid) if rid in obj.names else 0
+        _, w, t, b, _ = obj.outcomes(key, pol)[k]
+        name = {True: "true", False: "false", None: "null"}
+        shape = "rule-with-when" if obj.rs["rules"][k]["when"] is not None else "rule-without-when"
+        return shape, "when-%s/consequent-%s" % (name[w], name[t] if w is True else "not-evaluated"), kind
+    items = obj.groups[key]
+    if obj.check:
+        rid = dict(zip(obj.ids, dkey)).get("ruleid")
+        k = obj.names.index(rid) if rid in obj.names else 0
+        rule = obj.rs["rules"][k]
+        shape = "rule-with-when" if rule["when"] is not None else "plain-rule"
+        _, prod, w, lv, rv, b, _ = obj.rule_outcomes(key, pol)[k]
+        right = sorted(set(state_of(items.get(n, R.ABSENT)) for _, n in rule["right"]))
+        cls = "left-%s/right-%s" % (state_of(items.get(rule["left"], R.ABSENT)), "+".join(right))
+        if w is False:
+            cls += "/when-false"
+        return shape, cls, kind
+    # the first rule (in dependency order) whose item differs is the one to describe: later ones inherit the deviation
+    lefts = [r["left"] for r in obj.order]
+    pos = obj.ids.index(obj.rule_comp)
+    first = min(diffs, key=lambda d: lefts.index(d[1][pos]) if d[1][pos] in lefts else len(lefts))
+    item = first[1][pos]
+    kind = "wrong-value(measure)" if first[0] == "wrong-value" else first[0]
+    rule = next((r for r in obj.order if r["left"] == item), None)
+    if rule is None:
+        return "no-rule", "datapoint-of-the-operand", kind
+    dep = [n for _, n in rule["right"] if n in obj.defined]
+    shape = "rule-with-when" if rule["when"] is not None else "plain-rule"
+    if dep:
+        cls = "right-item-computed-by-another-rule"
+    else:
+        cls = "right-" + "+".join(sorted(set(state_of(items.get(n, R.ABSENT)) for _, n in rule["right"])))
+    if rule["when"] is not None and not obj._when(rule, dict(zip(obj.other, key))):
+        cls += "/when-false"
+    return shape, cls, kind
+
+
+def rule_order_class(rs):
+    """is the textual order of the rules a dependency order (every item computed by an earlier rule)?"""
+    lefts = {}
+    for i, r in enumerate(rs["rules"]):
+        if r["op"] == "=":
+            lefts.setdefault(r["left"], i)
+    for i, r in enumerate(rs["rules"]):
+        for _, n in r["right"]:
+            if n in lefts and lefts[n] > i:
+                return "textual-order-is-not-dependency-order"
+    return "textual-order-is-dependency-order"
+
+
+def coverage_class(obj, key):
+    """-> (class of the slice for the coverage key, non-trivial?)"""
+    pol = R.Policy()
+    call = obj.call
+    name = {True: "T", False: "F", None: "N"}
+    if call["fn"] == "check":
+        r = obj.all_rows[key]
+        return "bool=%s,imbalance=%s" % (name[r["bool_var"]], "null" if r["imbalance"] is None else "value"), r["bool_var"] is not None
+    if call["fn"] == "check_datapoint":
+        outs = obj.outcomes(key, pol)
+        return " ".join("%s>%s" % (name[w], name[t] if w is True else "-") for _, w, t, _, _ in outs), any(w is True for _, w, _, _, _ in outs)
+    if obj.check:
+        outs = obj.rule_outcomes(key, pol)
+        cls = " ".join(("-" if not prod else ("w" if w is False else name[b])) for _, prod, w, _, _, b, _ in outs)
+        return cls, any(prod for _, prod, _, _, _, _, _ in outs)
+    computed, trace = obj.computed(key, pol)
+    cls = " ".join("%s:%s%s" % (left, what[0], "".join(sorted(set(o[0] for o in origin.values())))) for left, origin, what in trace)
+    return cls, bool(computed)
+
+
+def statement_tag(call):
+    if call["fn"] == "check":
+        return ("check", call["op"], "ds-scalar" if call["right"][0] == "const" else "ds-ds", call["errorcode"] is not None,
+                call["errorlevel"] is not None, call["imbalance"] is not None, call["output"])
+    if call["fn"] == "check_datapoint":
+        return ("check_datapoint", call["output"], call["components"] is not None)
+    return (call["fn"], call["mode"], call["input"], call["output"])
+
+
+def dims_of(call):
+    if call["fn"] == "check":
+        return {"output": call["output"]}
+    if call["fn"] == "check_datapoint":
+        return {"output": call["output"]}
+    return {"mode": call["mode"], "input": call["input"], "output": call["output"]}
+
+
+def single_script(script_rulesets_text, stmt_text):
+    return script_rulesets_text + "\nR_1 <- " + stmt_text + ";"
+
+
+def run_and_judge(script, datasets, rec, extra, seed=0, defs_text="", stmt_texts=None):
+    """run one script on the engine, judge every slice of every statement against the evaluator.
+    -> list of failures [{fn, dims, shape, cls, kind, what, replay}]"""
+    rulesets, stmts = R.parse_script(script)
+    out = refbase.run(script, to_ds(datasets, seed))
+    failures = []
+    if out[0] != "ok":
+        failures.append({"fn": stmts[0]["call"]["fn"], "dims": {}, "shape": "any", "cls": "any", "kind": "raw-error:%s" % out[2] if out[1] == "raw" else "vtl-error:%s" % out[3],
+                         "what": "script raised %s %s: %s\n%s" % (out[2], out[3], out[4][:200], script[:600]),
+                         "replay": {"script": script, "datasets": pack(datasets), "expect": "no-error"}, "all_dims": {}})
+        rec.case(("script-error", extra), "engine-error")
+        return failures
+    cover = {}
+    for si, st in enumerate(stmts):
+        obj = R.prepare(st, rulesets, datasets)
+        res = out[1].get(st["target"])
+        if res is None:
+            failures.append({"fn": st["call"]["fn"], "dims": {}, "shape": "any", "cls": "any", "kind": "missing-result", "all_dims": {},
+                             "what": "no result %s" % st["target"], "replay": {"script": script, "datasets": pack(datasets), "expect": "result"}})
+            continue
+        got = engine_slices(res, obj.slice_ids, rec)
+        tag = statement_tag(st["call"])
+        keys = list(obj.keys())
+        known = set(keys)
+        keys += [key for key in got if key not in known]       # datapoints the evaluator has no slice for are extra
+        n_failed = 0
+        for key in keys:
+            g = got.get(key, [])
+            diffs, exp, consulted = judge_slice(obj, key, g)
+            try:
+                cls, nontrivial = coverage_class(obj, key)
+            except KeyError:
+                cls, nontrivial = "datapoint-outside-the-operand", True
+            outcome = "violation" if diffs else ("accepted-alternative" if consulted and not same_rows(g, exp, obj.ids) else "ok")
+            c = cover.setdefault((tag, extra, cls, outcome), [0, nontrivial])
+            c[0] += 1
+            for p in consulted:
+                rec.count("policy_consulted:" + p)
+            if diffs:
+                n_failed += 1
+                if n_failed <= 40:
+                    try:
+                        shape, fcls, kind = describe(obj, key, diffs)
+                    except (KeyError, ValueError, IndexError):
+                        shape, fcls, kind = "any", "unclassified", diffs[0][0]
+                    failures.append({"fn": st["call"]["fn"], "dims": dims_of(st["call"]), "shape": shape, "cls": fcls, "kind": kind,
+                                     "stmt": stmt_texts[si] if stmt_texts else None, "key": key, "slice_ids": obj.slice_ids,
+                                     "diffs": diffs[:3], "expected": exp, "got": g})
+    first = True
+    for (tag, ex, cls, outcome), (n, nontrivial) in sorted(cover.items(), key=repr):
+        sample = None
+        if first and nontrivial:
+            sample, first = {"statement": list(tag), "ruleset": ex, "slice_class": cls, "slices": n, "outcome": outcome}, False
+        rec.case((tag, ex, cls), outcome, nontrivial=nontrivial, n=n, sample=sample)
+    return failures
+
+
+def pack(datasets):
+    return {name: {"comps": [list(c) for c in comps], "rows": rows} for name, (comps, rows) in datasets.items()}
+
+
+def unpack(d):
+    return {name: ([tuple(c) for c in v["comps"]], v["rows"]) for name, v in d.items()}
+
+
+def still_fails(script, datasets):
+    """re-execute a (minimised) script on the engine and judge it -> (fails?, description)"""
+    try:
+        rulesets, stmts = R.parse_script(script)
+    except R.Outside as e:
+        return False, "outside: %s" % e
+    out = refbase.run(script, to_ds(datasets))
+    if out[0] != "ok":
+        return True, "raised %s %s: %s" % (out[2], out[3], out[4][:200])
+    for st in stmts:
+        obj = R.prepare(st, rulesets, datasets)
+        got = engine_slices(out[1][st["target"]], obj.slice_ids)
+        for key in set(obj.keys()) | set(got):
+            diffs, exp, _ = judge_slice(obj, key, got.get(key, []))
+            if diffs:
+                return True, "engine %s; expected %s (%s)" % (compact(got.get(key, [])), compact(exp), diffs[0][0])
+    return False, "agrees"
+
+
+def compact(rows):
+    return "[" + "; ".join(", ".join("%s=%s" % (k, v) for k, v in r.items()) for r in rows) + "]"
+
+
+def report(failures, defs_text, datasets, all_dims, rec):
+    """turn the failures of one script into violations: one finding key per (operator, rule shape, input class, deviation),
+    the option values generalised to * when every enumerated value of that option fails"""
+    groups = {}
+    for f in failures:
+        groups.setdefault((f["fn"], f["shape"], f["cls"], f["kind"] if "replay" in f else ""), []).append(f)
+    for (fn, shape, cls, kind), fs in sorted(groups.items(), key=lambda kv: repr(kv[0])):
+        if "replay" in fs[0]:           # the whole script failed
+            rec.violation("C07:%s:%s:%s:%s" % (fn, shape, cls, kind), fs[0]["what"], fs[0]["replay"])
+            continue
+        # one finding key per (operator, options, rule shape, input class): the most telling deviation names it
+        kinds = sorted(set(f["kind"] for f in fs), key=lambda k: (KIND_PRIORITY.index(k.split("(")[0]) if k.split("(")[0] in KIND_PRIORITY else 9, k))
+        dims = []
+        for d in sorted(all_dims.get(fn, {})):
+            vals = sorted(set(f["dims"][d] for f in fs))
+            dims.append("%s=%s" % (d, "*" if len(vals) > 1 and vals == sorted(all_dims[fn][d]) else "+".join(vals)))
+        if kinds[0] == "wrong-value(ruleid)":
+            dims = []                   # the rule identifier does not depend on the options of the operator
+        key = "C07:%s:%s:%s:%s" % (fn, "/".join(dims + [shape]), cls, kinds[0])
+        fs = [f for f in fs if f["kind"] == kinds[0]]
+        f = min(fs, key=lambda f: (len(f["got"]) + len(f["expected"]), repr(f["key"]), f["stmt"]))
+        # minimise: the failing slice alone, the failing statement alone
+        sl = dict(zip(f["slice_ids"], f["key"]))
+        small = {name: (comps, [r for r in rows if all(harness.canon_value(r.get(i)) == v for i, v in sl.items())]) for name, (comps, rows) in datasets.items()}
+        script = single_script(defs_text, f["stmt"])
+        fails, how = still_fails(script, small)
+        if not fails:
+            small = datasets
+            fails, how = still_fails(script, small)
+            key += "(only-in-packed-input)"
+        what = "%s on %s: engine returned %s, expected %s [%s] (%d slices of this class in the script%s)" % (
+            script.replace("\n", " "), compact([r for rows in small.values() for r in rows[1]][:12]), compact(f["got"]), compact(f["expected"]),
+            "; ".join("%s %s" % (d[0], d[2]) for d in f["diffs"]), len(fs), "; deviations seen in this class: " + ", ".join(kinds) if len(kinds) > 1 else "")
+        if not fails:
+            rec.tool_error("failure does not reproduce in isolation: %s" % what[:400])
+            continue
+        rec.violation(key, what, {"script": script, "datasets": pack(small), "expect": "agree"})
+
+
+KIND_PRIORITY = ("wrong-value", "wrong-errorcode", "extra-datapoint", "missing-datapoint")
+
+
+def enumerated_dims(stmts):
+    out = {}
+    for st in stmts:
+        for d, v in dims_of(st["call"]).items():
+            out.setdefault(st["call"]["fn"], {}).setdefault(d, set()).add(v)
+    return out
+
+
+def work(item, rec):
+    harness.boot()
+    seed = item.get("seed", 0)
+    if item["part"] == "a":
+        datasets = check_data()
+        script = "\n".join("R_%d <- %s;" % (i + 1, t) for i, t in enumerate(item["stmts"]))
+        defs, texts, extra = "", item["stmts"], "a"
+    elif item["part"] == "b":
+        datasets = dp_data()
+        script = dp_script(item["seq"])
+        defs = script[:script.index("R_1 <-")]
+        texts = [ln[ln.index("<-") + 2:].strip().rstrip(";") for ln in script.splitlines() if ln.startswith("R_")]
+        extra = "b:%s" % ("-".join(str(k) for k in item["seq"]))
+    elif item["part"] == "c":
+        datasets = hr_data("Number" if item["named"] else "Integer")
+        script = hr_script(item["seq"], item["named"], item["fn"], item["modes"])
+        defs = script[:script.index("R_1 <-")]
+        texts = [ln[ln.index("<-") + 2:].strip().rstrip(";") for ln in script.splitlines() if ln.startswith("R_")]
+        extra = "c:%s:%s" % ("-".join(str(k) for k in item["seq"]), "named/Number" if item["named"] else "unnamed/Integer")
+    else:
+        return dataset_priority(rec)
+    try:
+        rulesets, stmts = R.parse_script(script)
+        for st in stmts:
+            R.prepare(st, rulesets, datasets)
+    except R.Outside as e:
+        # the evaluator has no reading of the script (two '=' rules for one item, no '=' rule): the engine must not crash raw
+        out = refbase.run(script, to_ds(datasets, seed))
+        outcome = "outside-subset:" + ("accepted" if out[0] == "ok" else "%s-error" % out[1])
+        rec.case(("outside", extra, item.get("fn"), str(e)), outcome, nontrivial=False)
+        if out[0] == "err" and out[1] == "raw":
+            rec.violation("C07:%s:ruleset-%s:any:raw-error:%s" % (item.get("fn"), str(e).replace(" ", "-"), out[2]),
+                          "script raised raw %s: %s\n%s" % (out[2], out[4][:200], script[:400]),
+                          {"script": script, "datasets": pack({k: (c, r[:20]) for k, (c, r) in datasets.items()}), "expect": "no-raw-error"})
+        return
+    failures = run_and_judge(script, datasets, rec, extra, seed=seed, defs_text=defs, stmt_texts=texts)
+    if failures:
+        report(failures, defs, datasets, enumerated_dims(stmts), rec)
+
+
+def dataset_priority(rec):
+    """check_hierarchy ... dataset_priority: documented input mode; executed once per output (it aborts the statement)"""
+    datasets = hr_data("Integer")
+    small = {"DS_1": (datasets["DS_1"][0], [r for r in datasets["DS_1"][1] if r["Id_1"] in (1457, 1451)])}
+    for seq in ((0,), (2, 0)):
+        head, cond = hr_definition(seq, False)
+        script = head + "\nR_1 <- check_hierarchy(DS_1, hr%s rule Id_2 non_null dataset_priority all);" % cond
+        out = refbase.run(script, to_ds(small))
+        rec.case(("check_hierarchy", "dataset_priority", seq), "engine-error" if out[0] != "ok" else "not-modelled-accepted", nontrivial=out[0] != "ok")
+        if out[0] == "err" and out[1] == "raw":
+            rec.violation("C07:check_hierarchy:input=dataset_priority:any:raw-error:%s" % out[2],
+                          "check_hierarchy with the documented input mode dataset_priority raises a raw %s (%s): %s" % (out[2], out[4][:120], script.splitlines()[-1]),
+                          {"script": script, "datasets": pack(small), "expect": "no-raw-error"})
+
+
+# ---------------------------------------------------------------------------------------------------------
+
+class Check:
+    ID = "C07"
+    LEVEL = "exploration"
+    RULE = ("case = one validation statement x one slice of the packed input (check / check_datapoint: one datapoint; check_hierarchy / "
+            "hierarchy: one group of identifiers = one presence / null pattern of the code items under one valuation and condition value), "
+            "executed on the engine and compared with the reference evaluator; distinct = (operator, options of the statement, ruleset, "
+            "outcome class of the slice: per rule not produced / true / false / null / when-false, resp. which inputs a computed item "
+            "used); non-trivial = at least one rule was evaluated (produced) for the slice")
+    ASSUMPTIONS = [
+        "three-valued logic: a comparison with null is null; bool_var null is neither valid nor invalid: no errorcode / errorlevel, not in invalid output",
+        "ruleid = the rule name, or the ordinal position when no rule is named (RM157-159); rulesets naming only some rules are rejected by the engine (1-3-1-7) and not in the alphabet",
+        "check_datapoint: antecedent false -> the rule holds (true); antecedent null is not crisp: bool_var null or true accepted (policy dp-when-null), never a failure",
+        "hierarchical modes follow the table of the manual (missing counts as null / zero, condition for evaluating the rule, datapoints returned); non_zero for hierarchy "
+        "returns a computed item unless it is 0 (RM133); partial_*: at least one involved item exists with a non-null value (RM134, RM159)",
+        "pinned by the stored expectations (the other reading does not reproduce them): " + "; ".join("%s: %s" % kv for kv in sorted(R.PINNED.items())),
+        "accepted in both readings (manual not crisp, stored expectations silent): " + "; ".join("%s: %s" % kv for kv in sorted(R.POLICIES.items())),
+        "hierarchy: only '=' rules compute; rules are applied in dependency order whatever the textual order (tests/Hierarchical GH_567_1); input mode dataset takes every "
+        "right-side item from the operand, rule takes items defined by another '=' rule from that rule's output, rule_priority prefers the computed non-null value",
+        "rulesets with two '=' rules for the same item (hierarchy) or without '=' rule are outside the subset: only 'no raw error' is required",
+        "check_hierarchy input mode dataset_priority is not modelled (no stored expectation; the engine does not implement it): only 'no raw error' is required",
+        "condition components are identifiers and never null; structures / data types of the results are C10's business, only datapoints are compared; numbers at 1e-9",
+    ]
+
+    def run(self, tier, seed, rec):
+        harness.boot()
+        ok, wrong, skipped = calibrate()
+        for label, verdict, info in skipped:
+            rec.count("calibration_" + verdict)
+        rec.note("calibration: outside the modelled subset: " + ", ".join("%s (%s)" % (a.split("/", 1)[-1], b) for a, _, b in skipped))
+        base = {"exhaustive": False, "traces_validated_against_impl": len(ok), "not_modelled": NOT_MODELLED}
+        if wrong:
+            for label, info in wrong:
+                rec.tool_error("oracle not calibrated: reference evaluator disagrees with the stored expectation of %s: %s" % (label, info))
+            return base
+        missing = [n for n in RM_NUMBERS if "RM%d" % n not in ok]
+        if len(ok) < 60 or missing:
+            rec.tool_error("calibration corpus too small: %d cases reproduced, RM examples missing: %s" % (len(ok), missing))
+            return base
+        items = space(tier)
+        for it in items:
+            it["seed"] = seed
+        harness.pmap(work, harness.seeded_order(items, seed), rec)
+        rec.violations.sort(key=lambda v: (v["key"], len(str(v["replay"])), v["what"]))
+        ops = set(k[0][0] for k in rec.keys if isinstance(k, tuple) and isinstance(k[0], tuple))
+        for fn in ("check", "check_datapoint", "check_hierarchy", "hierarchy"):
+            if fn not in ops:
+                rec.tool_error("operator %s was never exercised non-trivially" % fn)
+        base.update({"exhaustive": True, "work_items": len(items), "calibration_cases_outside_subset": len(skipped),
+                     "datapoint_rulesets": len(dp_rulesets(tier)), "hierarchical_rulesets": len(hr_rulesets(tier)),
+                     "groups_per_hierarchical_operand": 243 * len(VALUATIONS) * 2,
+                     "policies": sorted(R.POLICIES), "pinned_by_stored_expectations": sorted(R.PINNED)})
+        return base
+
+    def replay(self, data):
+        harness.boot()
+        datasets = unpack(data["datasets"])
+        if data.get("expect") in ("no-raw-error", "no-error", "result"):
+            out = refbase.run(data["script"], to_ds(datasets))
+            return out[0] == "err" and (out[1] == "raw" or data["expect"] != "no-raw-error")
+        return still_fails(data["script"], datasets)[0]
+
+
+NOT_MODELLED = [
+    "check_hierarchy input mode dataset_priority (no stored expectation in the repository; the engine raises NotImplementedError)",
+    "code items with a condition  A [cond]  on the right side of a hierarchical rule (tests GL_397_34-37, GL_566_1)",
+    "valuedomain signatures of datapoint rulesets and the empty variable signature (GH_844_1); non-boolean consequents (tests 1-1-1-9/10)",
+    "hierarchical rulesets with two '=' rules for one item or without '=' rule under hierarchy (engine: 1-1-10-10 / 1-1-10-5)",
+    "rulesets that name only some rules (engine: 1-3-1-7)",
+    "validation operators followed by a clause or applied to an expression operand (tests/Validation 1-1-1-1..13, GL_cs_22, GL_463_1)",
+]
